@@ -241,7 +241,12 @@ func (inv *Invoice) Invert() error {
 			row.Amount = row.Amount.Invert()
 		}
 	}
+	// start again from empty totals, keeping only an externally provided rounding
+	rounding := invertAmount(inv.Totals.Rounding)
 	inv.Totals = nil
+	if rounding != nil {
+		inv.Totals = &Totals{Rounding: rounding}
+	}
 
 	if err := inv.Calculate(); err != nil {
 		return err
